@@ -380,6 +380,41 @@ impl Leg for Stress {
     }
 }
 
+/// contention on new keys (adjacent duplicate records, k 7..=21, many threads, free-running)
+#[derive(Clone, Debug, Serialize, Deserialize)]
+pub struct DupCase {
+    pub spec: gen::DupSpec,
+    pub k: usize,
+    pub threads: usize,
+    pub chunks: usize,
+}
+
+pub struct DupStress;
+impl Leg for DupStress {
+    type Case = DupCase;
+    const NAME: &'static str = "contention-new-keys";
+    fn strategy(_tier: Tier) -> BoxedStrategy<DupCase> {
+        (gen::dup_strategy(), 7usize..=21, 4usize..=16, prop::sample::select(vec![1usize, 1, 2, 3])).prop_map(|(spec, k, threads, chunks)| DupCase { spec, k, threads, chunks }).boxed()
+    }
+    fn check(c: &DupCase) -> Verdict {
+        let mut v = Verdict::new();
+        let recs = c.spec.expand();
+        let dir = crate::scratch_dir();
+        let input = io::write_input(dir.path(), "in", &recs, &Container::plain_fasta());
+        let outdir = dir.path().join("out");
+        std::fs::create_dir_all(&outdir).unwrap();
+        let seqs: Vec<&[u8]> = recs.iter().map(|r| &r.seq.0[..]).collect();
+        let want = model::count_table(&seqs, c.k);
+        let cfg = CtrCfg { k: c.k, threads: c.threads, mem_gb: mem_for_limit(target_limit(&recs, c.chunks)), acgt: false };
+        let o = exec(&io::path_str(&input), &outdir, &cfg, &Sched::Free);
+        v.class("stress-new-keys");
+        v.class_if(seqs.iter().map(|s| s.len()).sum::<usize>() > 65536, "stress-input>64KiB");
+        v.nontrivial = true;
+        verdict_of(&mut v, &o, &want, c.k, false, &format!("contention on new keys: {} units x {} adjacent copies after {} unrelated reads, {} threads, k={}", c.spec.units, c.spec.copies, c.spec.prefix, c.threads, c.k));
+        v
+    }
+}
+
 // ---------------------------------------------------------------------------------------------
 // bounded-exhaustive schedules for small inputs
 
@@ -459,6 +494,8 @@ pub fn run(ctx: &mut Ctx) {
     ctx.run_leg::<Runs>(n, true, 200);
     let n = ctx.share(ctx.tier.pick(64, 1_500));
     ctx.run_leg::<Stress>(n, true, 40);
+    let n = ctx.share(ctx.tier.pick(240, 4_800));
+    ctx.run_leg::<DupStress>(n, true, 20);
     let n = ctx.share(ctx.tier.pick(48, 800));
     ctx.run_leg::<Large>(n, true, 30);
     let n = ctx.share(ctx.tier.pick(8, 96));
@@ -475,6 +512,7 @@ pub fn replay(leg: &str, case: &serde_json::Value) -> Option<Result<Verdict, Str
     match leg {
         "runs" => Some(crate::engine::replay_leg::<Runs>(case)),
         "contention-stress" => Some(crate::engine::replay_leg::<Stress>(case)),
+        "contention-new-keys" => Some(crate::engine::replay_leg::<DupStress>(case)),
         "large-inputs" => Some(crate::engine::replay_leg::<Large>(case)),
         "long-records" => Some(crate::engine::replay_leg::<Long>(case)),
         "sched-enum" => Some(crate::engine::replay_leg::<Enum>(case)),
